@@ -201,6 +201,18 @@ def api_cases(ctx):
         out.append((f"ones_like:{s}", pt.ones_like(a), True))
         # a cast is none of the high-level operations: it must be reported as unknown, never approximated
         out.append((f"astype:{s}", ph(s, "int64").astype("float32"), False))
+    # a typed NumPy scalar WIDER than the array decides the promoted type: the raised operation must carry it as a
+    # typed scalar (a weak Python scalar would let NumPy compute in the narrow type — wrap-around, OverflowError)
+    for adt, sc in [("int8", np.int16(100)), ("int8", np.int16(300)), ("uint8", np.int8(-1)), ("uint8", np.int16(-3)),
+                    ("int16", np.int32(70000)), ("float32", np.float64(1e-9)), ("int8", np.float32(0.5)),
+                    ("int32", np.int64(2 ** 40))]:
+        for nm, f in arith[:3]:
+            out.append((f"typed-scalar-right:{nm}:{adt}:{type(sc).__name__}", f(ph((3, 4), adt), sc), True))
+            # (reflected: NumPy's own scalar operator hands pymbolic a Python scalar — recorded as a known finding)
+            out.append((f"typed-scalar-left:{nm}:{adt}:{type(sc).__name__}", f(sc, ph((3, 4), adt)), True))
+        c = ph((3, 4), "bool")
+        out.append((f"typed-scalar-right:where-then:{adt}:{type(sc).__name__}", pt.where(c, sc, ph((3, 4), adt)), True))
+        out.append((f"typed-scalar-right:where-else:{adt}:{type(sc).__name__}", pt.where(c, ph((3, 4), adt), sc), True))
     for s, t in [((4,), (3, 4)), ((3, 1), (3, 4)), ((), (2, 2)), ((1, 4), (5, 3, 4))]:
         out.append((f"broadcast_to:{s}->{t}", pt.broadcast_to(ph(s, "float64"), t), True))
     try:
@@ -384,6 +396,13 @@ def check_one(ctx, label, il, inp, must_recognise):
         binds = {k: evaluate(v, inp) for k, v in il.bindings.items()}
         truth, _ = eval_index_lambda(il, binds)
         got = interp_hlo(h, il, inp)
+    except OverflowError as e:
+        # NumPy refuses to apply the raised operation (a weak Python scalar that does not fit the narrow array type)
+        # where the index lambda has a value: the operation was misread
+        ctx.violation(f"raise:misread:{type(h).__name__}:{label.split(':')[0]}",
+                      f"{label}: classified as {h!r:.200} but NumPy cannot apply that operation ({e}) where the index "
+                      f"lambda {il.expr} has values", {"label": label, "expr": str(il.expr), "hlo": repr(h)[:400]})
+        return True, type(h).__name__
     except Exception as e:   # noqa: BLE001
         ctx.broken.append(f"c19-interp:{label}:{type(e).__name__}:{e}"[:140])
         return True, type(h).__name__
